@@ -19,6 +19,7 @@ from ..c13_units import PREAMBLE, QUICK_OPS, THOROUGH_OPS_LIB, all_units
 from ..core import R11
 
 LEVEL = "exploration"
+TRAPPED = []
 
 _INFRA = re.compile(r"fatal error|No such file|cannot open|\.pch|\.gch|internal compiler error|Killed|"
                     r"out of memory|Bus error|Segmentation", re.I)
@@ -86,7 +87,9 @@ def build_sweeps(wd, cfg, flags, units, accepted, nparts):
     def runexe(job):
         exe, part = job
         rc, out, err = core.sh([exe, str(part), str(nparts)], timeout=3000)
-        if rc != 0:
+        if rc == 86 and "trap-signal" in out:
+            TRAPPED.append(exe)     # a trap inside the library, reported by the harness as a V line; the rest of this part did not run
+        elif rc != 0:
             raise core.InfraError("C13 sweep binary %s failed rc=%d: %s" % (exe, rc, err[-1500:]))
         return L.parse_sv(out)
 
@@ -259,8 +262,11 @@ def check(run):
         nonlocal n_sweep, n_skipped
         stats, viols = build_sweeps(os.path.join(run.wd, "sweep"), cfg, flags, ops_units, accepted[cfg.name], 3)
         want = sum(len(accepted[cfg.name][u.name]) + len(R11) for u in ops_units)
-        if len(stats) != want:
-            raise core.InfraError("sweep under %s produced %d instance summaries, expected %d" % (cfg, len(stats), want))
+        base = [x for x in stats if "@" not in x["op"]]          # "op@S" = extra mixed-scalar-type sweeps
+        if len(base) != want and not TRAPPED:
+            raise core.InfraError("sweep under %s produced %d instance summaries, expected %d" % (cfg, len(base), want))
+        if len(stats) == len(base):
+            raise core.InfraError("no mixed-scalar-type sweeps were run under %s" % cfg)
         for s in stats:
             if s["evals"] == 0:
                 raise core.InfraError("vacuous sweep instance: %s" % s)
